@@ -176,11 +176,12 @@ class IO:
             self.lagrangian_fields[field_name] = field
             self.lagrangian_fields_with_grid_name[lagrangian_grid_name].append(field_name)
 
-            # Assign field types
-            if field.shape[0] == lagrangian_grid.shape[1]:
-                self.lagrangian_fields_type[field_name] = "Scalar"
-            elif field.shape == lagrangian_grid.shape:
+            # Assign field types (vector check first, so that a (dim, N) field on a
+            # grid with N == dim markers is not mistaken for a scalar field)
+            if field.shape == lagrangian_grid.shape:
                 self.lagrangian_fields_type[field_name] = "Vector"
+            elif field.shape[0] == lagrangian_grid.shape[1]:
+                self.lagrangian_fields_type[field_name] = "Scalar"
             else:
                 msg = (
                     f"Unable to identify lagrangian field type "
